@@ -406,19 +406,55 @@ def r6_pass_through(ctx) -> None:
         r.violation("C10.R4", lm.qual, "self.match(ref.rule) for SigmaRule and SigmaCorrelationRule references", "the log source condition no longer descends into referenced correlation rules: a log-source conditioned field mapping renames the base rules and inner correlations but leaves group-by, alias targets and the condition field of the outer correlation unmapped", lm.loc)
     r.rule("C10.R6", "condition operator, count, field and percentile reach the templates unchanged: op=correlation_condition_mapping[cond.op], count=cond.count, field=escape_and_quote_fieldref(cond.fieldref / rule.condition.fieldref), percentile=rule.condition.percentile; the operator table maps lt,lte,gt,gte,eq,neq to <,<=,>,>=,==,!=; the correlation template receives search, typing, timespan, aggregate, condition and group-by")
     _r6_condition_numbers(ctx)
+    # the three template functions interpreted (sa.tabulate, Proxy): every converter they call is a recorder that answers with
+    # a marker naming itself and its arguments; _format_template / str.format record what the template receives
+    import types as _types
+    from ..tabulate import Proxy as _Pt, call_method as _cmt, Raised as _Rt
+
+    class SigmaCorrelationCondition:
+        def __init__(self, **k): self.__dict__.update(k)
+    class SigmaConversionError(Exception):
+        def __init__(self, *a, **k): super().__init__(*[str(x) for x in a[2:3]])
+    env_t = {"SigmaCorrelationCondition": SigmaCorrelationCondition, "SigmaConversionError": SigmaConversionError, "__import_stub__": True}
+    IKt = {"max_steps": 6000, "behaviours": (NotImplementedError, SigmaConversionError, KeyError)}
+
+    class _Tmpl(str):
+        """a template text that reports what it is formatted with"""
+        def format(self, *a, **k):  # noqa: A003
+            received.setdefault(str(self), []).append(k)
+            return f"FORMATTED[{self}]"
+    received: dict = {}
+
+    def marker(name):
+        return lambda *a, **k: f"{name}({', '.join(map(repr, a))})"
+    def backend(extra=None):
+        attrs = {n_: marker(n_) for n_ in ("escape_and_quote_fieldref", "escape_and_quote_field", "convert_referenced_rules", "convert_timespan", "convert_correlation_search",
+                                           "convert_correlation_typing", "convert_correlation_aggregation_fields_from_template", "convert_correlation_aggregation_groupby_from_template",
+                                           "convert_extended_correlation_condition")}
+        attrs["_format_template"] = lambda template, **k: (received.setdefault(str(template), []).append(k), f"FORMATTED[{template}]")[1]
+        attrs["correlation_condition_mapping"] = {"OP-GTE": ">=!", "OP-LT": "<!"}
+        for ct in ("event_count", "value_percentile"):
+            attrs[f"{ct}_condition_expression"] = {"m": _Tmpl(f"{ct}-condition")}
+            attrs[f"{ct}_aggregation_expression"] = {"m": _Tmpl(f"{ct}-aggregation")}
+            attrs[f"{ct}_correlation_query"] = {"m": _Tmpl(f"{ct}-query")}
+        attrs["default_correlation_query"] = None
+        attrs.update(extra or {})
+        return _Pt(prog, TQ, env_t, attrs, interp_kwargs=IKt)
+    cond_ = SigmaCorrelationCondition(op="OP-GTE", count=7, fieldref="fr", percentile=95)
+    rule_ = _types.SimpleNamespace(condition=cond_, referenced_rules=["RR"], fields=["F"], group_by=["G"], timespan="TS", source=None, rules=[])
     f = prog.func(TQ + ".convert_correlation_condition_from_template")
-    calls = [c for c in walk_no_nested(f.node) if isinstance(c, ast.Call) and call_name(c) == "self._format_template"]
-    basic = next((c for c in calls if any(k.arg == "op" for k in c.keywords)), None)
-    if basic is None:
-        r.violation("C10.R6", f.qual, "_format_template(template, field=…, op=…, count=…)", "basic condition rendering not found", f.loc)
-    else:
-        kws = {k.arg: unparse(k.value) for k in basic.keywords}
-        want = {"field": "self.escape_and_quote_fieldref(cond.fieldref)", "op": "self.correlation_condition_mapping[cond.op]", "count": "cond.count"}
-        for k, v in want.items():
-            if kws.get(k) == v:
-                r.ok("C10.R6", f.qual, f"{k}={v}", f"{f.module.relpath}:{basic.lineno}")
-            else:
-                r.violation("C10.R6", f.qual, f"{k}={kws.get(k)}", f"condition template must receive {k}={v}", f"{f.module.relpath}:{basic.lineno}")
+    received.clear()
+    try:
+        _cmt(prog, TQ, f.name, backend(), env_t, cond_, ["RR"], "event_count", "m", interp_kwargs=IKt)
+        kw = (received.get("event_count-condition") or [{}])[0]
+    except _Rt as ex:
+        kw = {"<raised>": str(ex)}
+    want = {"field": "escape_and_quote_fieldref('fr')", "op": ">=!", "count": 7}
+    for k, v in want.items():
+        if kw.get(k) == v:
+            r.ok("C10.R6", f.qual, f"{k}: the condition template receives {v!r} for the condition (gte, 7, field fr) (interpreted)", f.loc)
+        else:
+            r.violation("C10.R6", f.qual, f"{k}={kw.get(k, kw.get('<raised>'))!r}", f"condition template must receive {k}={v!r} for the condition (op gte → the mapped operator, count 7, field fr escaped)", f.loc)
     a = prog.lookup_class_attr(TQ, "correlation_condition_mapping")
     if a:
         table = {unparse(k).split(".")[-1]: const_eval(prog, a[0].module, v) for k, v in zip(a[1].value.keys, a[1].value.values)}  # type: ignore[union-attr]
@@ -428,32 +464,42 @@ def r6_pass_through(ctx) -> None:
         else:
             r.violation("C10.R6", TQ, f"correlation_condition_mapping {table}", f"expected {want_t}")
     g = prog.func(TQ + ".convert_correlation_aggregation_from_template")
-    calls = [c for c in walk_no_nested(g.node) if isinstance(c, ast.Call) and call_name(c) == "self._format_template"]
-    if calls:
-        kws = {k.arg: unparse(k.value).replace(" ", "") for k in calls[0].keywords}
-        want = {"field": "self.escape_and_quote_fieldref(rule.condition.fieldref)ifisinstance(rule.condition,SigmaCorrelationCondition)else''",
-                "percentile": "rule.condition.percentileifisinstance(rule.condition,SigmaCorrelationCondition)andrule.condition.percentileisnotNoneelse''",
-                "timespan": "self.convert_timespan(rule.timespan,method)", "search": "search",
-                "groupby": "self.convert_correlation_aggregation_groupby_from_template(rule.group_by,method)"}
+    for cond_g, want_field, want_pct in ((cond_, "escape_and_quote_fieldref('fr')", 95), (SigmaCorrelationCondition(op="OP-LT", count=1, fieldref="x", percentile=None), "escape_and_quote_fieldref('x')", ""),
+                                         (_types.SimpleNamespace(parsed="EXT"), "", "")):
+        received.clear()
+        rule_g = _types.SimpleNamespace(condition=cond_g, referenced_rules=["RR"], fields=["F"], group_by=["G"], timespan="TS", source=None, rules=[])
+        try:
+            _cmt(prog, TQ, g.name, backend(), env_t, rule_g, "event_count", "m", "SEARCH", interp_kwargs=IKt)
+            kw = (received.get("event_count-aggregation") or [{}])[0]
+        except _Rt as ex:
+            kw = {"<raised>": str(ex)}
+        want = {"field": want_field, "percentile": want_pct, "timespan": "convert_timespan('TS', 'm')", "search": "SEARCH",
+                "groupby": "convert_correlation_aggregation_groupby_from_template(['G'], 'm')"}
+        kind = "a basic condition" if isinstance(cond_g, SigmaCorrelationCondition) else "an extended condition"
         for k, v in want.items():
-            if kws.get(k) == v:
-                r.ok("C10.R6", g.qual, f"{k} passed through", f"{g.module.relpath}:{calls[0].lineno}")
+            if kw.get(k) == v:
+                r.ok("C10.R6", g.qual, f"{k} passed through ({kind}{', no percentile' if want_pct == '' and kind.startswith('a basic') else ''})", g.loc)
             else:
-                r.violation("C10.R6", g.qual, f"{k}={kws.get(k)}", f"aggregation template must receive {k}={v}", f"{g.module.relpath}:{calls[0].lineno}")
+                r.violation("C10.R6", g.qual, f"{k}={kw.get(k, kw.get('<raised>'))!r}", f"aggregation template must receive {k}={v!r} for {kind}", g.loc)
     h = prog.func(TQ + ".convert_correlation_rule_from_template")
-    fm = [c for c in walk_no_nested(h.node) if isinstance(c, ast.Call) and isinstance(c.func, ast.Attribute) and c.func.attr == "format" and unparse(c.func.value) == "template[method]"]
-    if fm:
-        kws = {k.arg: unparse(k.value).replace(" ", "") for k in fm[0].keywords}
-        want = {"search": "search", "typing": "self.convert_correlation_typing(rule)", "timespan": "self.convert_timespan(rule.timespan,method)",
-                "condition": "self.convert_correlation_condition_from_template(rule.condition,rule.referenced_rules,correlation_type,method)",
-                "groupby": "self.convert_correlation_aggregation_groupby_from_template(rule.group_by,method)"}
-        for k, v in want.items():
-            if kws.get(k) == v:
-                r.ok("C10.R6", h.qual, f"{k} passed to the correlation query template", f"{h.module.relpath}:{fm[0].lineno}")
-            else:
-                r.violation("C10.R6", h.qual, f"{k}={kws.get(k)}", f"correlation query template must receive {k}={v}", f"{h.module.relpath}:{fm[0].lineno}")
-    else:
-        r.violation("C10.R6", h.qual, "template[method].format(...)", "correlation query template call not found", h.loc)
+    received.clear()
+    try:
+        out_h = _cmt(prog, TQ, h.name, backend({"convert_correlation_aggregation_from_template": marker("aggregation"), "convert_correlation_condition_from_template": marker("condition")}),
+                     env_t, rule_, "event_count", "m", interp_kwargs=IKt)
+        kw = (received.get("event_count-query") or [{}])[0]
+    except _Rt as ex:
+        out_h, kw = None, {"<raised>": str(ex)}
+    want = {"search": "convert_correlation_search(" + repr(rule_) + ")", "typing": "convert_correlation_typing(" + repr(rule_) + ")", "timespan": "convert_timespan('TS', 'm')",
+            "condition": "condition(" + ", ".join(map(repr, (cond_, ["RR"], "event_count", "m"))) + ")",
+            "groupby": "convert_correlation_aggregation_groupby_from_template(['G'], 'm')",
+            "aggregate": "aggregation(" + ", ".join(map(repr, (rule_, "event_count", "m", "convert_correlation_search(" + repr(rule_) + ")"))) + ")"}
+    if out_h != ["FORMATTED[event_count-query]"] and "<raised>" not in kw:
+        r.violation("C10.R6", h.qual, "template[method].format(...)", f"the correlation query is {out_h!r} instead of the one formatted query template", h.loc)
+    for k, v in want.items():
+        if kw.get(k) == v:
+            r.ok("C10.R6", h.qual, f"{k} passed to the correlation query template", h.loc)
+        else:
+            r.violation("C10.R6", h.qual, f"{k}={str(kw.get(k, kw.get('<raised>')))[:80]!r}", f"correlation query template must receive {k} = the result of its converter for this rule", h.loc)
     gb = prog.func(TQ + ".convert_correlation_aggregation_groupby_from_template")
     # interpreted (sa.tabulate, Proxy) with marker templates: every field, in order, escaped; the no-field form without a list
     from ..tabulate import Proxy as _Pb, call_method as _cmb, Raised as _Rb
